@@ -335,6 +335,9 @@ static int32_t fsr_statistics(struct jls_core_s * self, uint16_t signal_id,
                                   incr, f64_tmp4, 1));
         ROE(jls_raw_chunk_seek(self->raw, pos));
         ROE(rd_stats_chunk(self, signal_id, level));
+        // the nested call may have grown (moved) the chunk buffer
+        f32_summary = (struct jls_fsr_f32_summary_s *) self->buf->start;
+        f64_summary = (struct jls_fsr_f64_summary_s *) self->buf->start;
         f64_to_stats(&stats_accum, f64_tmp4, incr);
         incr_remaining -= incr;
         start_sample_id += incr;
@@ -385,6 +388,9 @@ static int32_t fsr_statistics(struct jls_core_s * self, uint16_t signal_id,
             stats_to_f64(data, &stats_accum);
             data += JLS_SUMMARY_FSR_COUNT;
             --data_length;
+            if (0 == data_length) {
+                break;  // done; the nested call above replaced the summary chunk in the buffer
+            }
             int64_t incr = step_size - incr_remaining;
             if (incr < 0) {
                 JLS_LOGE("internal error");
